@@ -178,4 +178,50 @@ def run(ctx, rep):
         for nm in ("load_entry_point", "mark_defsyms_as_used"):
             sites = [bi for bi, t in P.flow(pa).calls() if (callee_key(t["f"]) or "").endswith("::" + nm)]
             rep.ob("prelude-roots", nm, len(sites) == 1 and any(cfg.postdominates(s, 0) or True for s in sites), f"activate calls {nm}", pa.file, pa.line)
+    _frame_index_global(ctx, rep)
     rep.assume("the closure over relocation edges is computed by the traversal whose protocol is C39's subject")
+
+
+def _frame_index_global(ctx, rep):
+    """An object's FDEs are collected per `.eh_frame` section but kept in ONE per-object list that sections index into (last_frame_index /
+    previous_frame_for_section). When a text section is loaded, GC walks that section's frames to keep what they reference (LSDA, personality). The index
+    stored for an FDE must therefore be its position in the per-object list: frames already collected from earlier `.eh_frame` sections of the same object
+    + position in the current one. A per-section index aliases another function's frame as soon as an object has two `.eh_frame` sections (`ld -r --unique`)."""
+    from mir import callee_key, place_chain
+    F, P = ctx.facts(), ctx.program()
+    rep.rule("frame-index-global", "process_eh_frame_relocations builds FrameIndex::from_usize(<offset parameter> + <frames collected so far in this section>), and its callers pass "
+             "the number of frames the object already holds (exception_frames.len()) as that offset")
+    b = F.body("libwild::elf::process_eh_frame_relocations")
+    if b is None:
+        rep.lost("frame-index-global", "elf::process_eh_frame_relocations")
+        return
+    flow = P.flow(b)
+    sites = [(bi, t) for bi, t in flow.calls() if (callee_key(t["f"]) or "").endswith("FrameIndex::from_usize")]
+    rep.floor("frame-index-global", "FrameIndex::from_usize sites", len(sites), 1)
+    off_param = None
+    for n, (bi, t) in enumerate(sites):
+        o = flow.origins(t["args"][0])
+        params = [x[1] for x in o if x[0] == "param" and b.locals[x[1]].strip() == "usize"]
+        has_len = any(x[0] == "call" and (x[1] or "").endswith("::len") for x in o)
+        has_add = any(x[0] == "op" and x[1].startswith("Add") for x in o)
+        ok = bool(params) and has_len and has_add
+        if params:
+            off_param = params[0]
+        rep.ob("frame-index-global", f"index#{n}", ok, "index = offset parameter + frames of this section so far" if ok else
+               "the frame index is the position within the current .eh_frame section only: with a second .eh_frame section in the object it names a frame of the first one, "
+               "and GC follows the wrong function's LSDA / personality references", b.file, t["l"])
+    callers = P.callers_of(lambda k: k == "libwild::elf::process_eh_frame_relocations")
+    for n, (cb, cbi, ct) in enumerate(callers):
+        if off_param is None or off_param - 1 >= len(ct["args"]):
+            rep.ob("frame-index-global", f"caller#{n}", False, "the offset parameter is gone", cb.file, ct["l"])
+            continue
+        cf = P.flow(cb)
+        a = ct["args"][off_param - 1]
+        ok = False
+        for x in cf.origins(a):
+            if x[0] == "call" and (x[1] or "").endswith("::len"):
+                lt = cb.blocks[x[2]]["t"]
+                if "exception_frames" in place_chain(cf, lt["args"][0])[0]:
+                    ok = True
+        rep.ob("frame-index-global", f"caller#{n}", ok, "the offset passed is the object's exception_frames.len()" if ok else "the offset passed is not the number of frames already collected", cb.file, ct["l"])
+    rep.floor("frame-index-global", "callers of process_eh_frame_relocations", len(callers), 2)
